@@ -416,8 +416,9 @@ class Ctx:
               "coverage": cov, "assumptions": self.assumptions, "wall_s": round(wall, 2),
               "violations": len(self.violations), "notes": self.notes,
               "known_findings_reported": self.known_lines}
-        with open(os.path.join(OUT, "evidence", self.pid + ".json"), "w") as f:
-            json.dump(ev, f, indent=1, default=str)
+        if not getattr(self, "no_evidence", False):
+            with open(os.path.join(OUT, "evidence", self.pid + ".json"), "w") as f:
+                json.dump(ev, f, indent=1, default=str)
         for l in self.known_lines:
             print(l)
         for v in self.violations[:5]:
@@ -614,6 +615,7 @@ def main(argv):
     mod = importlib.import_module("checks." + a.pid.lower())
     try:
         if a.cmd == "replay":
+            ctx.no_evidence = True
             mod.replay(ctx, a.replay)
         else:
             mod.run(ctx)
